@@ -12,7 +12,7 @@ from vlib import *
 import planlib as pl
 import feedlib as fl
 
-MODULES = ["JxlModel.Props.C09"]
+MODULES = ["JxlModel.Props.C09", "JxlModel.Props.C09Headers"]
 
 
 def run_impl_scripts(ctx, scripts, per_line_timeout=60):
